@@ -574,7 +574,8 @@ impl Scenario for C01Cycles {
                 build_api_model(cx, &mut nm)
             }
             1 | 4 => {
-                let opts = GenOpts::swarm(&mut cx.tape);
+                let mut opts = GenOpts::swarm(&mut cx.tape);
+                    opts.shuffle_positions = cx.tape.chance(1, 5);
                 let lo = LayoutOpts::swarm(&mut cx.tape);
                 let mut g = DocGen::new(&mut cx.tape, opts);
                 let nodes = g.fragment();
@@ -605,7 +606,8 @@ impl Scenario for C01Cycles {
             }
             _ => {
                 let (text, f) = {
-                    let opts = GenOpts::swarm(&mut cx.tape);
+                    let mut opts = GenOpts::swarm(&mut cx.tape);
+                    opts.shuffle_positions = cx.tape.chance(1, 5);
                     let lo = LayoutOpts::swarm(&mut cx.tape);
                     let mut g = DocGen::new(&mut cx.tape, opts);
                     let nodes = g.document();
